@@ -402,6 +402,11 @@ def part_constitutive(led):
             else:
                 led.fail(name, func, {'residual': why, 'meaning': 'reported %s is not the block of through-thickness integrals the property names' % key},
                          signature=key, replay=replay_constitutive())
+            if key == 'ABD' and isinstance(h, np.ndarray) and h.shape == (6, 6):
+                blk_ok = all(values_equal(h[i, j + 3], h[j, i + 3])[0] and values_equal(h[i + 3, j], h[i, j + 3])[0]
+                             for i in range(3) for j in range(3))
+                nm = '%s/post/ABD-is-[[A,B],[B,D]]-with-symmetric-blocks' % func
+                led.ok(nm, func) if blk_ok else led.fail(nm, func, {'reason': 'coupling block not symmetric / not repeated'}, signature='Bblock', replay=replay_constitutive())
             if key in ('ABD', 'ABDE') and isinstance(h, np.ndarray) and h.ndim == 2:
                 sym_ok = all(values_equal(h[i, j], h[j, i])[0] for i in range(h.shape[0]) for j in range(h.shape[1]))
                 nm = '%s/post/%s-symmetric' % (func, key)
